@@ -22,7 +22,7 @@ import (
 )
 
 func init() {
-	Register(&Prop{ID: "C06", Gen: c06Gen, New: func() Runner { return &c06Runner{} }})
+	Register(&Prop{ID: "C06", Gen: c06Gen, New: func() Runner { c06Resign = false; return &c06Runner{} }})
 }
 
 // ---------------------------------------------------------------- descriptors
@@ -184,6 +184,11 @@ func c06MutProp(g *Gen, p c06Prop) c06Prop {
 func c06Gen(g *Gen) {
 	for i := 0; i < g.N; i++ {
 		g.Emit("reset")
+		if g.Intn(4) == 0 {
+			// message objects of this case are REUSED objects: first signed by another key (and with another
+			// timestamp), their signer / hash / String() read, then changed and signed again through Sign()
+			g.Emit("mode resign")
+		}
 		switch x := g.Intn(100); {
 		case x < 28:
 			c06GenReport(g)
@@ -439,34 +444,70 @@ func c06Hash(s string, i int) []byte {
 var c06VoteCache = map[c06Vote]*consensus.VoteMessage{}
 var c06PropCache = map[c06Prop]*consensus.ProposalMessage{}
 
+// c06Resign: build message objects through an object-reuse history instead of freshly (set per case
+// by the op `mode resign`): the object is first signed by ANOTHER key over another timestamp, its
+// signer, hash and String() are read (filling whatever the object caches), then the timestamp is set
+// and the object is signed again through Sign() with the key of the descriptor.
+var c06Resign bool
+var c06VoteCacheR = map[c06Vote]*consensus.VoteMessage{}
+var c06PropCacheR = map[c06Prop]*consensus.ProposalMessage{}
+
 func c06MakeVote(v c06Vote) *consensus.VoteMessage {
-	if m, ok := c06VoteCache[v]; ok {
+	cache := c06VoteCache
+	if c06Resign {
+		cache = c06VoteCacheR
+	}
+	if m, ok := cache[v]; ok {
 		return m
+	}
+	w, ts := c06Wallet(v.s), int64(v.ts)
+	if c06Resign {
+		// the first signer varies, so that objects of different keys may share their former signer
+		w, ts = c06Wallet(v.s+1+(v.ts+v.blk)%2), int64(v.ts)+7
 	}
 	var m *consensus.VoteMessage
 	if v.nilVote {
-		m = consensus.VerifSignedVote(c06Wallet(v.s), consensus.VoteType(v.t), int64(v.h), int32(v.r),
-			codec.MustMarshalToBytes(int32(v.nid)), nil, 0, 0, int64(v.ts))
+		m = consensus.VerifSignedVote(w, consensus.VoteType(v.t), int64(v.h), int32(v.r),
+			codec.MustMarshalToBytes(int32(v.nid)), nil, 0, 0, ts)
 	} else {
 		psid := &consensus.PartSetID{Count: uint16(1 + v.ps), Hash: c06Hash("ps", v.ps)}
 		cnt := uint16(0)
 		if v.u > 0 {
 			cnt = 1
 		}
-		m = consensus.VerifSignedVote(c06Wallet(v.s), consensus.VoteType(v.t), int64(v.h), int32(v.r),
-			c06Hash("blk", v.blk), psid, uint32(v.nid), cnt, int64(v.ts))
+		m = consensus.VerifSignedVote(w, consensus.VoteType(v.t), int64(v.h), int32(v.r),
+			c06Hash("blk", v.blk), psid, uint32(v.nid), cnt, ts)
+	}
+	if c06Resign {
+		_ = consensus.VerifVoteSigner(m)
+		_ = consensus.VerifVoteHash(m)
+		_ = consensus.VerifDSVote(m).Signer()
+		_ = m.String()
+		m.Timestamp = int64(v.ts)
+		if err := m.Sign(c06Wallet(v.s)); err != nil {
+			panic(err)
+		}
 	}
 	if v.u > 0 {
 		// outside the signed payload: the signature made above stays valid
 		consensus.VerifC06SetNTS(m, []module.NTSHashEntryFormat{{NetworkTypeID: 1, NetworkTypeSectionHash: c06Hash("nts", v.u)}},
 			[][]byte{c06Hash("ntsproof", v.u)})
 	}
-	c06VoteCache[v] = m
+	if len(cache) > 100000 {
+		for k := range cache {
+			delete(cache, k)
+		}
+	}
+	cache[v] = m
 	return m
 }
 
 func c06MakeProp(p c06Prop) *consensus.ProposalMessage {
-	if m, ok := c06PropCache[p]; ok {
+	cache := c06PropCache
+	if c06Resign {
+		cache = c06PropCacheR
+	}
+	if m, ok := cache[p]; ok {
 		return m
 	}
 	m := consensus.NewProposalMessage()
@@ -475,11 +516,53 @@ func c06MakeProp(p c06Prop) *consensus.ProposalMessage {
 	m.BlockPartSetID = &consensus.PartSetID{Count: uint16(1 + p.ps), Hash: c06Hash("ps", p.ps)}
 	m.POLRound = int32(p.pol)
 	m.NID = uint32(p.nid)
+	if c06Resign {
+		m.POLRound = int32(p.pol) + 5
+		if err := m.Sign(c06Wallet(p.s + 1 + p.ps%2)); err != nil {
+			panic(err)
+		}
+		_ = consensus.VerifProposalSigner(m)
+		_ = consensus.VerifProposalHash(m)
+		_ = consensus.VerifDSProposal(m).Signer()
+		_ = m.String()
+		m.POLRound = int32(p.pol)
+	}
 	if err := m.Sign(c06Wallet(p.s)); err != nil {
 		panic(err)
 	}
-	c06PropCache[p] = m
+	if len(cache) > 100000 {
+		for k := range cache {
+			delete(cache, k)
+		}
+	}
+	cache[p] = m
 	return m
+}
+
+// c06CheckObject: what the message OBJECT says about itself must be what its wire bytes say:
+// signer = key of the signature = signer of the decoded evidence; hash = hash of the decoded one.
+func c06CheckObject(o *Oracle, it c06Item) {
+	if it.kind != "v" && it.kind != "p" {
+		return
+	}
+	d := it.ds()
+	want := c06Wallet(it.v.s).Address().ID()
+	if it.kind == "p" {
+		want = c06Wallet(it.p.s).Address().ID()
+	}
+	o.Check(bytes.Equal(d.Signer(), want), "c06-signer-differs-from-signature",
+		"%s: the object reports signer %x but it is signed by %x", it, d.Signer(), want)
+	dd, err := it.decoded()
+	if err != nil {
+		o.Check(false, "c06-evidence-does-not-decode", "DecodeDoubleSignData(%s): %v", it, err)
+		return
+	}
+	o.Check(bytes.Equal(dd.Signer(), d.Signer()) && dd.Height() == d.Height() && bytes.Equal(dd.Bytes(), d.Bytes()),
+		"c06-signer-differs-from-signature", "%s: object and its decoded bytes disagree: signer %x vs %x", it, d.Signer(), dd.Signer())
+	if it.kind == "v" {
+		m := c06MakeVote(it.v)
+		o.Check(bytes.Equal(consensus.VerifVoteSigner(m)[1:], want), "c06-signer-differs-from-signature", "%s: address() is stale", it)
+	}
 }
 
 // the property, evaluated on the descriptors (independent of the code under test)
@@ -616,6 +699,13 @@ func (r *c06Runner) Step(t []string, o *Oracle) string {
 		return "bad-op"
 	}
 	switch t[0] {
+	case "mode":
+		if len(t) != 2 || (t[1] != "resign" && t[1] != "fresh") {
+			return "bad-op"
+		}
+		c06Resign = t[1] == "resign"
+		o.Count("mode-" + t[1])
+		return "ok"
 	case "mn":
 		if len(t) != 3 {
 			return "bad-op"
@@ -637,6 +727,8 @@ func (r *c06Runner) Step(t []string, o *Oracle) string {
 		if !ok1 || !ok2 {
 			return "bad-op"
 		}
+		c06CheckObject(o, a)
+		c06CheckObject(o, b)
 		got := a.ds().IsConflictWith(b.ds())
 		o.Count("cf-" + a.kind + b.kind + "-" + c06B01(got))
 		if a.kind == b.kind && !c06SameNet(c06Nids(a), c06Nids(b)) {
@@ -668,6 +760,7 @@ func (r *c06Runner) Step(t []string, o *Oracle) string {
 		if !ok {
 			return "bad-op"
 		}
+		c06CheckObject(o, it)
 		if r.log == nil {
 			r.log = consensus.VerifNewDSMLog(1 << 30)
 			r.byPtr = map[interface{}]c06Item{}
@@ -870,6 +963,7 @@ func (r *c06Runner) stepReport(t []string, o *Oracle) string {
 				return "bad-op"
 			}
 			items = append(items, it)
+			c06CheckObject(o, it)
 		}
 		data = append(data, c06ItemBytes(rest[i]+" "+rest[i+1]))
 	}
